@@ -126,7 +126,8 @@ type ks struct {
 	passthr map[string]string // canonical Go text -> Coq term passed through unchanged (fields of the signed data)
 	callees map[string]ksCallee
 	locals  map[string]bool
-	acc     string // accumulator variable of an accumulator loop ("" outside)
+	alias   map[string]ast.Expr // pure locals (x := a.b.c): every use is replaced by the selector chain
+	acc     string              // accumulator variable of an accumulator loop ("" outside)
 	wrap    func(string) string
 	fall    string // value when control falls off the end of the current block ("" = not allowed)
 	idsVar  string // the local that holds the identity preimages once the idiom was seen
@@ -150,10 +151,108 @@ func (t *ks) child() *ks {
 	for k, v := range t.lists {
 		c.lists[k] = v
 	}
+	if t.alias != nil {
+		c.alias = map[string]ast.Expr{}
+		for k, v := range t.alias {
+			c.alias[k] = v
+		}
+	}
 	return &c
 }
 
+// isFieldChain: an identifier followed by field selections only (no call, index or dereference):
+// its value cannot change within the fragment, which has no assignment to fields.
+func isFieldChain(e ast.Expr) bool {
+	switch x := e.(type) {
+	case *ast.Ident:
+		return true
+	case *ast.SelectorExpr:
+		return isFieldChain(x.X)
+	}
+	return false
+}
+
+// resolve replaces the pure locals (see alias) inside an expression by what they stand for.
+func (t *ks) resolve(e ast.Expr) ast.Expr {
+	if len(t.alias) == 0 {
+		return e
+	}
+	switch x := e.(type) {
+	case *ast.Ident:
+		if a, ok := t.alias[x.Name]; ok && !t.locals[x.Name] {
+			return a
+		}
+	case *ast.SelectorExpr:
+		return &ast.SelectorExpr{X: t.resolve(x.X), Sel: x.Sel}
+	case *ast.ParenExpr:
+		return &ast.ParenExpr{X: t.resolve(x.X)}
+	case *ast.UnaryExpr:
+		return &ast.UnaryExpr{Op: x.Op, X: t.resolve(x.X)}
+	case *ast.BinaryExpr:
+		return &ast.BinaryExpr{X: t.resolve(x.X), Op: x.Op, Y: t.resolve(x.Y)}
+	case *ast.IndexExpr:
+		return &ast.IndexExpr{X: t.resolve(x.X), Index: t.resolve(x.Index)}
+	case *ast.CallExpr:
+		args := make([]ast.Expr, len(x.Args))
+		for i, a := range x.Args {
+			args[i] = t.resolve(a)
+		}
+		return &ast.CallExpr{Fun: x.Fun, Args: args}
+	}
+	return e
+}
+
+// lenIsZero recognises the spellings of "the slice is empty" / "is not empty" over len(x), which
+// is never negative: len(x) == 0, < 1, <= 0, 0 == len(x), 1 > len(x), 0 >= len(x), and their
+// negations len(x) != 0, > 0, >= 1, ... ; all are emitted as (len =? 0) resp. its negation.
+func lenIsZero(x *ast.BinaryExpr) (lenExpr ast.Expr, zero bool, ok bool) {
+	isLen := func(e ast.Expr) bool {
+		c, ok := e.(*ast.CallExpr)
+		return ok && ksText(c.Fun) == "len" && len(c.Args) == 1
+	}
+	lit := func(e ast.Expr) string {
+		if b, ok := e.(*ast.BasicLit); ok && b.Kind == token.INT {
+			return b.Value
+		}
+		return ""
+	}
+	op, l, c := x.Op, x.X, lit(x.Y)
+	if !isLen(l) {
+		if !isLen(x.Y) || lit(x.X) == "" {
+			return nil, false, false
+		}
+		l, c = x.Y, lit(x.X)
+		switch op { // mirror: c op len  ==  len op' c
+		case token.LSS:
+			op = token.GTR
+		case token.GTR:
+			op = token.LSS
+		case token.LEQ:
+			op = token.GEQ
+		case token.GEQ:
+			op = token.LEQ
+		}
+	}
+	switch {
+	case op == token.EQL && c == "0", op == token.LSS && c == "1", op == token.LEQ && c == "0":
+		return l, true, true
+	case op == token.NEQ && c == "0", op == token.GEQ && c == "1", op == token.GTR && c == "0":
+		return l, false, true
+	}
+	return nil, false, false
+}
+
 func (t *ks) expr(e ast.Expr) string {
+	e = t.resolve(e)
+	if be, ok := e.(*ast.BinaryExpr); ok {
+		if l, zero, ok := lenIsZero(be); ok {
+			v := "(" + t.expr(l) + " =? 0)"
+			if !zero {
+				v = "(negb " + v + ")"
+			}
+			return v
+		}
+	}
 	if v, ok := t.rename[ksText(e)]; ok {
 		return v
 	}
@@ -224,6 +323,7 @@ func (t *ks) expr(e ast.Expr) string {
 
 // value renders an argument handed to a callee: a pass-through field, a list, or a number.
 func (t *ks) value(e ast.Expr) string {
+	e = t.resolve(e)
 	k := ksText(e)
 	if v, ok := t.passthr[k]; ok {
 		return v
@@ -241,6 +341,19 @@ func (t *ks) value(e ast.Expr) string {
 		return t.value(u.X)
 	}
 	return "<" + k + ">" // never a valid Coq term: callees reject what they do not expect
+}
+
+// ksEmptySlice: []T{}, make([]T, 0), make([]T, 0, c)
+func ksEmptySlice(e ast.Expr) bool {
+	if cl, ok := e.(*ast.CompositeLit); ok && len(cl.Elts) == 0 {
+		at, isArr := cl.Type.(*ast.ArrayType)
+		return isArr && at.Len == nil
+	}
+	if call, ok := e.(*ast.CallExpr); ok && ksText(call.Fun) == "make" && (len(call.Args) == 2 || len(call.Args) == 3) {
+		at, isArr := call.Args[0].(*ast.ArrayType)
+		return isArr && at.Len == nil && ksText(call.Args[1]) == "0"
+	}
+	return false
 }
 
 func ksErrText(e ast.Expr) (string, bool) {
@@ -377,7 +490,7 @@ func (t *ks) assign(s *ast.AssignStmt, rest []ast.Stmt) string {
 			return t.fail("unsupported assignment target")
 		}
 		if ix, ok := s.Rhs[0].(*ast.IndexExpr); ok {
-			l, ok := t.lists[ksText(ix.X)]
+			l, ok := t.lists[ksText(t.resolve(ix.X))]
 			if !ok {
 				return t.fail("index into %s, which is not a known list", ksText(ix.X))
 			}
@@ -389,9 +502,10 @@ func (t *ks) assign(s *ast.AssignStmt, rest []ast.Stmt) string {
 			}
 			return "match gen_index " + l + " " + idx + " with\n  | None => " + panicV + "\n  | Some " + id.Name + " =>\n  " + t.stmts(rest) + "\n  end"
 		}
-		// identityPreimages := []T{} followed by the copying loop
-		if cl, ok := s.Rhs[0].(*ast.CompositeLit); ok && len(cl.Elts) == 0 {
-			if _, isArr := cl.Type.(*ast.ArrayType); isArr && len(rest) >= 1 {
+		// identityPreimages := []T{} (or make([]T, 0) / make([]T, 0, capacity): the capacity has no
+		// meaning for the value) followed by the copying loop
+		if ksEmptySlice(s.Rhs[0]) {
+			if len(rest) >= 1 {
 				if t.kind == ksSubsetFn && t.acc == "" {
 					// subset := []common.Address{}: the accumulator of GetSubset
 					t.acc = id.Name
@@ -405,6 +519,17 @@ func (t *ks) assign(s *ast.AssignStmt, rest []ast.Stmt) string {
 			return t.fail("unsupported empty slice literal %s", ksText(s.Rhs[0]))
 		}
 		// extra := keys.Extra.(*p2pmsg.DecryptionKeys_Gnosis).Gnosis
+		// x := a.b.c  (a pure local): inlined at every use
+		if _, isSel := s.Rhs[0].(*ast.SelectorExpr); isSel && isFieldChain(s.Rhs[0]) && !t.locals[id.Name] {
+			if t.alias == nil {
+				t.alias = map[string]ast.Expr{}
+			}
+			if _, dup := t.alias[id.Name]; dup {
+				return t.fail("pure local %s defined twice", id.Name)
+			}
+			t.alias[id.Name] = t.resolve(s.Rhs[0])
+			return t.stmts(rest)
+		}
 		if sel, ok := s.Rhs[0].(*ast.SelectorExpr); ok && sel.Sel.Name == "Gnosis" {
 			if ta, ok := sel.X.(*ast.TypeAssertExpr); ok {
 				if v, ok := t.rename["assert:"+ksText(ta)]; ok {
@@ -540,7 +665,7 @@ func (t *ks) isPreimageCopy(x string, rs *ast.RangeStmt) bool {
 
 // for i, x := range l { ... }   (early returns; in GetSubset with an accumulator)
 func (t *ks) rangeLoop(s *ast.RangeStmt, rest []ast.Stmt) string {
-	l, ok := t.lists[ksText(s.X)]
+	l, ok := t.lists[ksText(t.resolve(s.X))]
 	if !ok || s.Tok != token.DEFINE {
 		return t.fail("range over %s, which is not a known list", ksText(s.X))
 	}
@@ -592,7 +717,7 @@ func (t *ks) forLoop(s *ast.ForStmt, rest []ast.Stmt) string {
 	if !ok || ksText(lc.Fun) != "len" || len(lc.Args) != 1 {
 		return t.fail("for loop whose bound is not len(list)")
 	}
-	l, ok := t.lists[ksText(lc.Args[0])]
+	l, ok := t.lists[ksText(t.resolve(lc.Args[0]))]
 	if !ok {
 		return t.fail("for loop bounded by the length of %s, which is not a known list", ksText(lc.Args[0]))
 	}
@@ -610,7 +735,7 @@ func (t *ks) forLoop(s *ast.ForStmt, rest []ast.Stmt) string {
 	// visible in the generated file.
 	if len(s.Body.List) >= 1 {
 		if as, ok := s.Body.List[0].(*ast.AssignStmt); ok && as.Tok == token.DEFINE && len(as.Lhs) == 1 && len(as.Rhs) == 1 {
-			if ix, ok := as.Rhs[0].(*ast.IndexExpr); ok && ksText(ix.X) == ksText(lc.Args[0]) && ksText(ix.Index) == iv {
+			if ix, ok := as.Rhs[0].(*ast.IndexExpr); ok && ksText(t.resolve(ix.X)) == ksText(t.resolve(lc.Args[0])) && ksText(ix.Index) == iv {
 				if xid, ok := as.Lhs[0].(*ast.Ident); ok && xid.Name != iv {
 					body.locals[xid.Name] = true
 					b := body.stmts(s.Body.List[1:])
